@@ -292,7 +292,7 @@ theorem encode_isSome_iff (m : Msg) : (encode m).isSome ↔ intsWithinLimit m :=
     | some l => exact (encode_some m l he).2
   · intro h; rw [encode_eq_canon m h]; rfl
 
-theorem numDigits_zero : numDigits 0 ≤ PyTables.intMaxDigits := by
+theorem numDigits_zero_le : numDigits 0 ≤ PyTables.intMaxDigits := by
   have : numDigits 0 = 1 := by
     unfold numDigits; rw [show (0 : Int).natAbs = 0 from rfl, natDigits]; simp
   rw [this]; decide
@@ -303,7 +303,7 @@ theorem createSetMessage_ack0 (g : GW) (node child : Int) (vt : Option Int) (val
   obtain ⟨vti, rfl, rfl, hv, he⟩ := createSetMessage_node _ _ _ _ _ _ _ h
   have he0 : (encode (⟨node, child, g.t.mtSet, 0, vti, value⟩ : Msg)).isSome := by
     rw [encode_isSome_iff] at he ⊢
-    exact ⟨he.1, he.2.1, he.2.2.1, numDigits_zero, he.2.2.2.2⟩
+    exact ⟨he.1, he.2.1, he.2.2.1, numDigits_zero_le, he.2.2.2.2⟩
   have hv0 : validate g.const (⟨node, child, g.t.mtSet, 0, vti, value⟩ : Msg) = true := by
     simp only [validate, headerOk, childOk, typeOk, Bool.and_eq_true, decide_eq_true_eq] at hv ⊢
     obtain ⟨⟨⟨⟨h1, h2⟩, h3⟩, h5⟩, h6⟩ := hv
